@@ -25,7 +25,7 @@ build_race() {
   go build -race -overlay $B/overlay/overlay.json -o $B/check.race ./cmd/check > $B/build-race.log 2>&1 || { cat $B/build-race.log >&2; echo "cannot build the race check binary" >&2; exit 2; }
 }
 
-needs_race() { case "$1" in C09|C10|C05|C15) return 0;; *) return 1;; esac; }
+needs_race() { case "$1" in C09|C10|C05|C15|C18) return 0;; *) return 1;; esac; }
 
 case "${1:-}" in
   setup)
